@@ -295,11 +295,87 @@ fn dec_arith(op: BinOp, a: &RDec, b: &RDec) -> RRes {
             if b.mant == 0 {
                 return Err(RErr::DivisionByZero);
             }
-            x.checked_rem(y)
+            return dec_rem_exact(a, b);
         }
         _ => unreachable!(),
     };
     r.map(RV::dec).ok_or(RErr::Overflow)
+}
+
+/// Exact decimal remainder (sign of the dividend), independent of rust_decimal: both mantissas are
+/// brought to the larger scale as arbitrary-precision integers (base 10^9 limbs, schoolbook), the
+/// remainder is taken there.  When it does not fit 96 bits at that scale the cell is left open.
+fn dec_rem_exact(a: &RDec, b: &RDec) -> RRes {
+    const BASE: u64 = 1_000_000_000;
+    fn from_u128(mut v: u128) -> Vec<u64> {
+        let mut out = Vec::new();
+        while v > 0 {
+            out.push((v % BASE as u128) as u64);
+            v /= BASE as u128;
+        }
+        out
+    }
+    fn mul_small(x: &mut Vec<u64>, m: u64) {
+        let mut carry = 0u64;
+        for limb in x.iter_mut() {
+            let t = *limb * m + carry;
+            *limb = t % BASE;
+            carry = t / BASE;
+        }
+        while carry > 0 {
+            x.push(carry % BASE);
+            carry /= BASE;
+        }
+    }
+    fn cmp(x: &[u64], y: &[u64]) -> std::cmp::Ordering {
+        let lx = x.iter().rposition(|l| *l != 0).map(|i| i + 1).unwrap_or(0);
+        let ly = y.iter().rposition(|l| *l != 0).map(|i| i + 1).unwrap_or(0);
+        lx.cmp(&ly).then_with(|| x[..lx].iter().rev().cmp(y[..ly].iter().rev()))
+    }
+    fn sub_assign(x: &mut Vec<u64>, y: &[u64]) {
+        let mut borrow = 0i64;
+        for i in 0..x.len() {
+            let mut t = x[i] as i64 - borrow - *y.get(i).unwrap_or(&0) as i64;
+            borrow = 0;
+            if t < 0 {
+                t += BASE as i64;
+                borrow = 1;
+            }
+            x[i] = t as u64;
+        }
+    }
+    fn to_u128(x: &[u64]) -> Option<u128> {
+        let mut v: u128 = 0;
+        for limb in x.iter().rev() {
+            v = v.checked_mul(BASE as u128)?.checked_add(*limb as u128)?;
+        }
+        Some(v)
+    }
+    let scale = a.scale.max(b.scale);
+    let mut x = from_u128(a.mant);
+    for _ in 0..(scale - a.scale) {
+        mul_small(&mut x, 10);
+    }
+    let mut y = from_u128(b.mant);
+    for _ in 0..(scale - b.scale) {
+        mul_small(&mut y, 10);
+    }
+    // x mod y by shift-and-subtract in base 10: y * 10^k for decreasing k
+    let mut shifted: Vec<Vec<u64>> = vec![y.clone()];
+    while cmp(shifted.last().unwrap(), &x) != std::cmp::Ordering::Greater {
+        let mut n = shifted.last().unwrap().clone();
+        mul_small(&mut n, 10);
+        shifted.push(n);
+    }
+    for d in shifted.iter().rev() {
+        while cmp(&x, d) != std::cmp::Ordering::Less {
+            sub_assign(&mut x, d);
+        }
+    }
+    match to_u128(&x) {
+        Some(m) if m < (1u128 << 96) => Ok(RV::Dec(RDec { neg: a.neg && m != 0, mant: m, scale })),
+        _ => Err(RErr::Unspecified),
+    }
 }
 
 fn float_arith(op: BinOp, a: f64, b: f64) -> f64 {
